@@ -641,7 +641,9 @@ def _map_poly(p: Poly, f) -> RF:
     return total
 
 
-_MATH = {'sin': math.sin, 'cos': math.cos, 'tan': math.tan, 'atan': math.atan, 'exp': math.exp,
+_MATH = {'copysign': math.copysign, 'hypot': math.hypot, 'acos': math.acos, 'floor': math.floor, 'ceil': math.ceil,
+         'floordiv': lambda a, b: a // b, 'mod': lambda a, b: a % b, 'int': lambda a: float(int(a)),
+         'round': lambda *a: float(round(*a)), 'sin': math.sin, 'cos': math.cos, 'tan': math.tan, 'atan': math.atan, 'exp': math.exp,
          'log': math.log, 'abs': abs, 'max': max, 'min': min, 'atan2': math.atan2, 'asin': math.asin,
          'pow': math.pow}
 
